@@ -112,9 +112,12 @@ class SystemProblem:
                    "obs": "observations"}
         lwkw = {name_of[t]: v for t, v in self.Wspec.items()}
         has = lambda n, p: p in self.per_u[n]
+        extra = {}
+        if getattr(self, "derivative_keys_dict", None) is not None:
+            extra["derivative_keys_dict"] = self.derivative_keys_dict
         if kind == "ode":
             return jinns.loss.SystemLossODE(
-                u_dict=u_dict, dynamic_loss_dict=dyn,
+                u_dict=u_dict, dynamic_loss_dict=dyn, **extra,
                 initial_condition_dict={n: ((self.t0, jnp.asarray(self.u0[n])) if has(n, "ic") else None) for n in self.names},
                 loss_weights=jinns.loss.LossWeightsODEDict(**lwkw), params_dict=self.params)
         kw = {}
@@ -126,7 +129,7 @@ class SystemProblem:
             kw["initial_condition_fun_dict"] = {n: ((lambda x, c=c0[n]: c + 0.0 * jnp.sum(x)) if has(n, "ic") else None)
                                                 for n in self.names}
         return jinns.loss.SystemLossPDE(
-            u_dict=u_dict, dynamic_loss_dict=dyn,
+            u_dict=u_dict, dynamic_loss_dict=dyn, **extra,
             omega_boundary_fun_dict={n: (fbf[n] if has(n, "boundary") else None) for n in self.names},
             omega_boundary_condition_dict={n: ("dirichlet" if has(n, "boundary") else None) for n in self.names},
             norm_samples_dict={n: (jnp.asarray(self.norm_samples) if has(n, "norm") else None) for n in self.names},
